@@ -259,17 +259,17 @@ def cases(seed, tier):
     for name in ("normalized_errstate", "pad_aliasing", "save_ignore_elements"):
         out.append({"gen": "anchor", "name": name, "cfg": "default", "seed": 1})
     quick = tier == "quick"
-    n_law = 40 if quick else 1400          # per law family
-    n_seq = 2000 if quick else 60000
+    n_law = 40 if quick else 2000          # cases per law family
+    n_seq = 2000 if quick else 15000       # sequence cases (thorough: 10 sequences per case)
     mags = ["unit", "int", "mixed", "huge", "tiny", "sparse", "grid"]
     for fam in ("aabb", "vec", "rot", "angle", "maths"):
         for i in range(n_law):
             out.append({"gen": fam, "dim": 1 + (i % 6), "mag": mags[(i // 2) % len(mags)], "cfg": CFGS[i % len(CFGS)],
-                        "n": 30 if quick else 40, "seed": rng.randrange(2 ** 31)})
+                        "n": 30 if quick else 120, "seed": rng.randrange(2 ** 31)})
     for i in range(n_seq):
         out.append({"gen": "seq", "dim": [3, 3, 2, 3, 1, 4, 3, 6, 5][i % 9], "cfg": CFGS[i % len(CFGS)],
                     "len": rng.choice([3, 4, 6, 8, 12, 16]), "mesh": ["surface", "surface", "polyline", "pointcloud", "volume"][i % 5],
-                    "seed": rng.randrange(2 ** 31)})
+                    "reps": 1 if quick else 10, "seed": rng.randrange(2 ** 31)})
     return out
 
 
@@ -1390,21 +1390,26 @@ def _seq_step(env):
 
 
 def run_seq(desc, ctx):
-    rng = random.Random(desc["seed"])
-    sent = Sentinel(ctx, desc["cfg"])
     base = dict(_evals)
     tmp = _scratch()
+    lens = [3, 4, 6, 8, 12, 16]
     try:
-        env = _SeqEnv(ctx, sent, rng, desc["dim"], desc["mesh"], tmp)
-        for _ in range(desc["len"]):
-            _seq_step(env)
-        ctx.obs("seq", "sequences")
-        if env.raised_then_ok:
-            ctx.nontrivial(stable_hash(desc))
-            ctx.obs("seq", "raise_then_return")
-        if desc["len"] <= 5 and env._pending_raise:
-            ctx.sample({"sequence": env.log, "numpy_error_configuration": desc["cfg"], "mesh": desc["mesh"],
-                        "checked_after_every_step": "argument arrays, caller arrays, sibling boxes, mesh, numpy.geterr()"})
+        for rep in range(int(desc.get("reps", 1))):
+            seed = desc["seed"] if rep == 0 else (desc["seed"] * 31 + rep * 7919) & 0x7FFFFFFF
+            length = desc["len"] if rep == 0 else lens[(desc["len"] + rep) % len(lens)]
+            rng = random.Random(seed)
+            sent = Sentinel(ctx, desc["cfg"] if rep == 0 else CFGS[(CFGS.index(desc["cfg"]) + rep) % len(CFGS)])
+            env = _SeqEnv(ctx, sent, rng, desc["dim"], desc["mesh"], tmp)
+            for _ in range(length):
+                _seq_step(env)
+            ctx.obs("seq", "sequences")
+            if env.raised_then_ok:
+                ctx.nontrivial(stable_hash([desc, rep]))
+                ctx.obs("seq", "raise_then_return")
+            if length <= 5 and env._pending_raise:
+                ctx.sample({"sequence": env.log, "numpy_error_configuration": sent.cfg_name, "mesh": desc["mesh"],
+                            "checked_after_every_step": "argument arrays, caller arrays, sibling boxes, mesh, numpy.geterr()"})
+            _clean_scratch()
     finally:
         _clean_scratch()
         _flush_evals(ctx, base)
